@@ -314,6 +314,28 @@ def OptOK (W : World) (strict : Bool) : Ty → Prop
 
 def OptionalOK (W : World) (strict : Bool) (T : Ty) : Prop := TyAll (OptOK W strict) T
 
+/-- the scalar leaves of the type raise nothing but LoadError -/
+def LeafOK (W : World) (strict : Bool) : Ty → Prop
+  | .scalar s => ∀ d, (∃ v, W.scalarLoad strict s d = .ok v) ∨ (∃ e, W.scalarLoad strict s d = .err e)
+  | _ => True
+
+def LeavesSettled (W : World) (strict : Bool) (T : Ty) : Prop := TyAll (LeafOK W strict) T
+
+/-- every value the documented rule of `T` can prescribe is hashable -/
+def HashOut (W : World) (strict : Bool) (T : Ty) : Prop :=
+  ∀ n d v, specLoad W strict n T d = some v → v.hashable = true
+
+/-- element types of sets and key types of dicts only produce hashable values
+    (otherwise building the container raises `TypeError`, which the documentation does not
+    talk about) -/
+def HashOK (W : World) (strict : Bool) : Ty → Prop
+  | .iter .set _ e => HashOut W strict e
+  | .iter .frozenset _ e => HashOut W strict e
+  | .dict k _ => HashOut W strict k
+  | _ => True
+
+def HashSafe (W : World) (strict : Bool) (T : Ty) : Prop := TyAll (HashOK W strict) T
+
 /-- the outcome agrees with the specified result whenever it is a value or a LoadError -/
 def Agrees {α : Type} (o : Outcome α) (r : Option α) : Prop :=
   (∀ a, o = .ok a → r = some a) ∧ (∀ e, o = .err e → r = none)
